@@ -316,7 +316,7 @@ namespace AIToolbox::POMDP {
     template <typename... Args>
     SparseModel<M>::SparseModel(NoCheck, size_t o, ObservationMatrix && ot, Args&&... params) :
             M(std::forward<Args>(params)...), O(o),
-            observations_(std::move(ot))
+            observations_(std::move(ot)), rand_(Seeder::getSeed())
     {}
 
     template <MDP::IsModel M>
